@@ -6,6 +6,7 @@ import (
 	"testing"
 
 	"verifharness/hist"
+	"verifharness/term"
 )
 
 func c07TestCases(n int) []*Case {
@@ -215,5 +216,125 @@ func TestC07PlainAfterFailure(t *testing.T) {
 	}
 	if nt != 200 {
 		t.Fatalf("%d of 200 cases non-trivial", nt)
+	}
+}
+
+// Stream mixed-keys: the catalogue's texts are what the unformatted render writes, the keys
+// of one Dict are pairwise different, the oracle accepts the implementation.
+func TestC07MixedKeysStream(t *testing.T) {
+	r := rand.New(rand.NewSource(11))
+	m := &c07mix{r: r, tags: map[string]bool{}, fresh: c07FreshPaths[:3]}
+	kinds := map[string]int{}
+	for i := 0; i < 3000; i++ {
+		k := m.other(i%2 == 0)
+		if i%10 == 0 {
+			k = c07IntKey(int64(r.Intn(3000) - 1500))
+		}
+		kinds[k.Kind]++
+		if k.Text[0] == 0 {
+			continue // the text depends on the File
+		}
+		d := &term.Dict{Pairs: [][2]term.Node{{k.Node, term.S(term.Lit(1))}}}
+		st := term.S(term.Named("Var"), term.Id("_"), term.Op("="), term.G("Map", term.S(term.G("Interface"))), term.G("Interface"), term.G("Values", d))
+		obs := ExecFresh(hist.History{{Kind: "newfile", F: 0, A: "p"}, {Kind: "noformat", F: 0, Flag: true}, {Kind: "fadd", F: 0, Code: st}, {Kind: "render", F: 0}})
+		keys, err := c07LiteralKeys(obs[0].Out, true)
+		if err != nil || len(keys) != 1 || len(keys[0]) != 1 || keys[0][0] != k.Text {
+			t.Fatalf("key of kind %s: catalogue text %q, rendered %q (%v)", k.Kind, k.Text, keys, err)
+		}
+	}
+	for _, k := range []string{"int", "expr", "raw-number", "float", "typed-literal", "string", "rune", "ident", "call", "index", "parens", "qual", "composite"} {
+		if kinds[k] == 0 {
+			t.Errorf("key kind %s never drawn", k)
+		}
+	}
+	tags := map[string]int{}
+	nt := 0
+	for i := 0; i < 150; i++ {
+		c := c07MixedCase(r)
+		for _, tg := range c.Tags {
+			tags[tg]++
+		}
+		if c.NonTrivial {
+			nt++
+		}
+		got := ExecFresh(c.Hist)
+		if msg := (c07{}).Oracle(c, got); msg != "" {
+			t.Fatalf("oracle rejects the implementation: %s\n%s", msg, c.Hist.Sexp())
+		}
+	}
+	if nt < 100 {
+		t.Errorf("only %d of 150 cases are non-trivial", nt)
+	}
+	for _, tg := range []string{"int-keys-numeric-and-text-order-disagree", "other-kind-key-between-two-int-keys", "render=plain-statement", "render=file", "container=array", "dict-nested", "key-kind=qual"} {
+		if tags[tg] == 0 {
+			t.Errorf("tag %s never generated", tg)
+		}
+	}
+}
+
+// The mixed-keys oracle on hand-made outputs.
+func TestC07MixedKeysVerdicts(t *testing.T) {
+	d := &term.Dict{Pairs: [][2]term.Node{
+		{term.S(term.Lit(9)), term.S(term.Lit("nine"))},
+		{term.S(term.Lit(10)), term.S(term.Lit("ten"))},
+		{term.S(term.Lit(2), term.Op("*"), term.Id("n")), term.S(term.Lit("twelve"))},
+	}}
+	st := term.S(term.Named("Var"), term.Id("_"), term.Op("="), term.G("Index", term.S(term.Op("..."))), term.Named("String"), term.G("Values", d))
+	c := &Case{Stream: "mixed-keys", Meta: map[string]interface{}{"builds": 0, "mixed": true},
+		Hist: hist.History{{Kind: "newfile", F: 0, A: "p"}, {Kind: "fadd", F: 0, Code: st},
+			{Kind: "noformat", F: 0, Flag: true}, {Kind: "render", F: 0}, {Kind: "noformat", F: 0, Flag: false}, {Kind: "render", F: 0},
+			{Kind: "noformat", F: 0, Flag: true}, {Kind: "render", F: 0}}}
+	w := func(s string) hist.Obs { return hist.Obs{Kind: "write", Out: s, Writes: 1} }
+	raw := func(keys ...string) string {
+		s := "package p\n\n\nvar _ = [...] string {\n"
+		for _, k := range keys {
+			s += k + ":\"v\",\n"
+		}
+		return s + "}"
+	}
+	fm := func(keys ...string) string {
+		s := "package p\n\nvar _ = [...]string{\n"
+		for _, k := range keys {
+			s += "\t" + k + ": \"v\",\n"
+		}
+		return s + "}\n"
+	}
+	good := []string{"10", "2 * n", "9"}
+	tab := []struct {
+		name string
+		obs  []hist.Obs
+		ok   bool
+	}{
+		{"sorted by text", []hist.Obs{w(raw(good...)), w(fm(good...)), w(raw(good...))}, true},
+		{"integers by value", []hist.Obs{w(raw("2 * n", "9", "10")), w(fm("2 * n", "9", "10")), w(raw("2 * n", "9", "10"))}, false},
+		{"another collection order in the third render", []hist.Obs{w(raw(good...)), w(fm(good...)), w(raw("10", "9", "2 * n"))}, false},
+		{"formatted render in another order", []hist.Obs{w(raw(good...)), w(fm("2 * n", "10", "9")), w(raw(good...))}, false},
+		{"equal key texts", []hist.Obs{w(raw("10", "10", "9")), w(fm("10", "10", "9")), w(raw("10", "10", "9"))}, false},
+		{"a render failed", []hist.Obs{w(raw(good...)), {Kind: "fmterr", Out: "x"}, w(raw(good...))}, false},
+		{"a render is missing", []hist.Obs{w(raw(good...)), w(fm(good...))}, false},
+	}
+	for _, e := range tab {
+		if m := c07MixedCheck(c, e.obs); (m == "") != e.ok {
+			t.Errorf("%s: accepted=%v, want %v (%s)", e.name, m == "", e.ok, m)
+		}
+	}
+	// the real thing
+	if m := (c07{}).Oracle(c, ExecFresh(c.Hist)); m != "" {
+		t.Errorf("implementation rejected: %s", m)
+	}
+	// an implementation whose Dict order depends on the collection order: caught by the repetition
+	defer func(f func(hist.History) []hist.Obs) { c07Exec = f }(c07Exec)
+	n := 0
+	c07Exec = func(h hist.History) []hist.Obs {
+		obs := ExecFresh(h)
+		n++
+		if n == 3 {
+			obs[0].Out = strings.Replace(obs[0].Out, "10:\"ten\",\n2 * n:\"twelve\",", "2 * n:\"twelve\",\n10:\"ten\",", 1)
+		}
+		return obs
+	}
+	c.Meta["builds"] = 6
+	if m := (c07{}).Oracle(c, ExecFresh(c.Hist)); !strings.Contains(m, "differs from the first build") {
+		t.Errorf("a build in another order accepted: %q", m)
 	}
 }
